@@ -34,7 +34,10 @@ class C08(Prop):
                 "otherwise 0, all-ones, both sign boundaries, every one-hot and one-cold pattern and seeded random "
                 "patterns (quick 150, thorough 4000 per field). Oracle on the real code: decode consumes exactly w "
                 "bits, decoded value finite, encode(decode(p)) = p except that the sign-magnitude negative zero "
-                "re-encodes as 0, exactly the inv pattern decodes to absent. Non-trivial = distinct (field, pattern) "
+                "re-encodes as 0, exactly the inv pattern decodes to absent. The hand-written numeric fields (bias_m of "
+                "1059/1065: all 2^14 steps; of 1230: all 2^16 steps in thorough, a pattern sample in quick) go through "
+                "whole-message ENC/DEC/ENC ops: every step is reached, decodes to a distinct value, and "
+                "decode-then-encode reproduces the frame. Non-trivial = distinct (field, pattern) "
                 "with a pattern other than 0 and all-ones.")
 
     def trusted(self):
@@ -51,6 +54,95 @@ class C08(Prop):
             for p in patterns(r, L, 16 if thorough else 10, 4000 if thorough else 150, ctx.repo):
                 yield (f"DFDEC {i} {L} {p}", "float" if d["dt"] in ("f32", "f64") else "int",
                        p != 0 and p != (1 << L) - 1)
+        # the hand-written numeric fields (bias_m of 1059 / 1065 / 1230) are not df! rows: whole-message ops
+        self._fam = self.bias_family(ctx)
+        enc = [op for _, _, op in self._fam]
+        for op in enc:
+            yield (op, "bias-family-enc", True)
+        a1 = ctx.run_all([ctx.exe_release], enc, 20.0)
+        dec = ["DEC " + a for a in a1 if a and a[0] in "0123456789abcdef" and " " not in a]
+        for op in dec:
+            yield (op, "bias-family-dec", True)
+        a2 = ctx.run_all([ctx.exe_release], dec, 20.0)
+        for a in a2:
+            if a.startswith("MSG "):
+                yield ("ENC " + a[4:], "bias-family-reenc", True)
+
+    def bias_family(self, ctx):
+        """(n, [k], op): ENC ops whose bias lists carry one value per grid step k -- every step of the 14-bit
+        fields of 1059 / 1065, every step of the 16-bit field of 1230 in the thorough tier (a pattern sample
+        in quick). No knowledge of the wire layout is used: the patterns are reached through the real encoder
+        and the oracle counts that all of them were."""
+        from msggen import Gen
+        g = Gen(ctx.root, ctx.repo)
+        r = ctx.rng("biasfam")
+        out = []
+        for n, res, L, maxsat in ((1059, 0.01, 14, 63), (1065, 0.01, 14, 31), (1230, 0.02, 16, 0)):
+            if n not in g.numbers:
+                continue
+            if n == 1230:
+                table = [(1, 67), (1, 80), (2, 67), (2, 80)]
+                cap = 4
+            else:
+                table = [(b, a) for _, b, a in g.s["bias_tables"]["df_msg%d_biases" % n]][:31]
+                cap = g.consts["SAT_CAP_1059" if n == 1059 else "SAT_CAP_1065"]
+            if L <= 14 or ctx.tier == "thorough":
+                ks = list(range(-(1 << (L - 1)), 1 << (L - 1)))
+            else:
+                ks = sorted(set((p - (1 << L)) if p >> (L - 1) else p for p in patterns(r, L, 10, 300, ctx.repo)))
+            slots = [(s, sig) for s in range(maxsat + 1) for sig in table][:cap]
+            head = g.frag(r, g.mod_of[n], "valid")
+            c = [k for k, t in enumerate(head) if t.startswith("c")][0]
+            for i in range(0, len(ks), len(slots)):
+                chunk = ks[i:i + len(slots)]
+                toks = ["c%d" % len(chunk)]
+                for (sat, (b, a)), k in zip(slots, chunk):
+                    if n != 1230:
+                        toks.append("i%d" % sat)
+                    toks += ["g%d:%d" % (b, a), "f%x" % f_bits("f32", to_f32(k * res))]
+                out.append((n, chunk, "ENC %d %s" % (n, " ".join(head[:c] + toks))))
+        return out
+
+    def run(self, ctx):
+        extra = super().run(ctx)
+        if ctx.replay:
+            return extra
+        # decode-then-encode reproduces the frame for every bias pattern; all patterns are reached
+        fam = self.bias_family(ctx)
+        fails = 0
+        for prof, exe in (("release", ctx.exe_release), ("relchk", ctx.exe_relchk)):
+            frames = ctx.run_all([exe], [op for _, _, op in fam], 20.0)
+            ok = [(n, ks, op, f) for (n, ks, op), f in zip(fam, frames) if f and " " not in f and f[0] in "0123456789abcdef"]
+            for (n, ks, op), f in zip(fam, frames):
+                if not (f and " " not in f and f[0] in "0123456789abcdef"):
+                    fails += 1; self.fail_op(ctx, op, prof, "on-grid bias list refused: " + f[:60])
+            decs = ctx.run_all([exe], ["DEC " + f for _, _, _, f in ok], 20.0)
+            re_ops, keep = [], []
+            seen = {}
+            for (n, ks, op, f), d in zip(ok, decs):
+                t = d.split()
+                vals = [w for w in t[2:] if w.startswith("f")]
+                if not d.startswith(f"MSG {n} ") or len(vals) != len(ks):
+                    fails += 1; self.fail_op(ctx, op, prof, f"frame decodes to {d[:60]} ({len(vals)} biases for {len(ks)} entries)")
+                    continue
+                seen.setdefault(n, set()).update(vals)
+                re_ops.append("ENC " + d[4:]); keep.append((op, f))
+            re = ctx.run_all([exe], re_ops, 20.0)
+            for (op, f), f2 in zip(keep, re):
+                if f2 != f:
+                    fails += 1; self.fail_op(ctx, op, prof, "decode-then-encode does not reproduce the frame")
+            for n in seen:
+                want = sum(len(ks) for m, ks, _ in fam if m == n)
+                if len(seen[n]) != want:
+                    fails += 1
+                    self.fail_op(ctx, "bias family of %d" % n, prof, f"{want} grid steps decode to only {len(seen[n])} distinct values")
+        ctx.cov["oracle_failures"] += fails
+        ctx.cov["bias_patterns"] = sum(len(ks) for _, ks, _ in fam)
+        return extra
+
+    def fail_op(self, ctx, op, prof, why):
+        if len(ctx.violations) < 100:
+            ctx.violations.append({"op": op[:4000], "profile": prof, "oracle": "FAIL C08 " + why})
 
 
 def f_bits(dt, x):
